@@ -359,3 +359,127 @@ theorem SchemesOK_ports_mem {S : List (Bytes × List Int)} (h : SchemesOK S) (i 
 
 end Ix
 end Cors
+
+/-! ### `Tree.Contains` with the library's binary search in it -/
+namespace Cors
+namespace Ix
+open Node
+
+/-- `node.contains` with `slices.BinarySearch` spelled out (three searches). -/
+def nodeContainsBS (schemes : List (Bytes × List Int)) (scheme : Bytes) (port : Int) (wild : Bool) : Chk Bool :=
+  let r := binarySearch Bytes.lt scheme (schemes.map Prod.fst)     -- i, found := slices.BinarySearch(n.schemes, scheme)
+  if !r.2 then pure false
+  else do
+    let ports ← idxG (schemes.map Prod.snd) r.1                     -- ports := n.ports[i]
+    if (binarySearch intLt (Node.code port wild) ports).2 then pure true     -- _, found = slices.BinarySearch(ports, port)
+    else pure (binarySearch intLt (Node.wildCode wild) ports).2              -- _, found = slices.BinarySearch(ports, wildcardPort)
+
+theorem nodeContainsBS_eq (S : List (Bytes × List Int)) (hS : SchemesOK S) (scheme : Bytes) (port : Int) (wild : Bool) :
+    nodeContainsBS S scheme port wild = nodeContains S scheme port wild := by
+  unfold nodeContainsBS nodeContains
+  have hb := binarySearch_sorted Bytes.lt scheme (S.map Prod.fst) (fun a b c h1 h2 => Bytes.lt_trans h1 h2) hS.keys
+  have hf := findPos_sorted Bytes.lt scheme (S.map Prod.fst) Bytes.lt_irrefl hS.keys
+  rw [hb, hf]
+  simp only []
+  cases hfound : (bsearch Bytes.lt scheme (S.map Prod.fst)).2 with
+  | false => simp only [Bool.not_false, if_true, cond_false]
+  | true =>
+    simp only [Bool.not_true, Bool.false_eq_true, if_false, cond_true]
+    have hlt : (bsearch Bytes.lt scheme (S.map Prod.fst)).1 < S.length := by
+      unfold bsearch at hfound ⊢
+      simp only [Bool.and_eq_true, decide_eq_true_eq, List.length_map] at hfound
+      exact hfound.1
+    rw [idxG_ok _ _ (by simpa using hlt)]
+    simp only [bind, Except.bind]
+    have hsorted := SchemesOK_ports_mem hS _ hlt
+    have h1 := binarySearch_ports _ hsorted (Node.code port wild)
+    have h2 := binarySearch_ports _ hsorted (Node.wildCode wild)
+    rw [h1.1, h1.2, h2.1, h2.2]
+    cases ((S.map Prod.snd).getD (bsearch Bytes.lt scheme (S.map Prod.fst)).1 default).contains (code port wild) <;> simp
+
+/-- The `for` of `Tree.Contains` with `slices.BinarySearch` spelled out. -/
+def treeLoopBS : Nat → Node → Bytes → Bytes → Int → Chk Bool
+  | 0, _, _, _, _ => .error ()
+  | fuel + 1, n, host, scheme, port => do
+    match ← lastByte host with
+    | none => nodeContainsBS n.schemes scheme port false
+    | some label =>
+      if ← nodeContainsBS n.schemes scheme port true then return true
+      let r := binarySearch natLt label (n.kids.map Prod.fst)      -- i, found := slices.BinarySearch(n.edges, label)
+      if !r.2 then return false
+      let c ← idxG (n.kids.map Prod.snd) r.1                       -- n = &n.children[i]
+      let (prefixOfHost, _, suf) ← splitAtCommonSuffix host c.suf.reverse
+      if suf.length != c.suf.length then return false
+      treeLoopBS fuel c prefixOfHost scheme port
+
+theorem kid_mem (K : List (Nat × Node)) (i : Nat) (h : i < K.length) :
+    (((K.map Prod.fst).getD i default), ((K.map Prod.snd).getD i default)) ∈ K := by
+  rw [getD_map' Prod.fst K i default default h, getD_map' Prod.snd K i default default h]
+  rw [List.getD_eq_getElem?_getD, List.getElem?_eq_getElem h]
+  exact List.getElem_mem h
+
+theorem treeLoopBS_eq : ∀ (fuel : Nat) (n : Node) (host scheme : Bytes) (port : Int), Inv n →
+    treeLoopBS fuel n host scheme port = treeLoop fuel n host scheme port := by
+  intro fuel
+  induction fuel with
+  | zero => intro n host scheme port _; rfl
+  | succ fuel ih =>
+    intro n host scheme port hinv
+    cases n with
+    | mk nsuf S K =>
+      obtain ⟨hS, hK⟩ := Inv_mk.mp hinv
+      simp only [treeLoopBS, treeLoop, Node.schemes, Node.kids]
+      rw [nodeContainsBS_eq S hS, nodeContainsBS_eq S hS]
+      have hb := (binarySearch_edges (.mk nsuf S K) hinv)
+      simp only [Node.kids] at hb
+      cases hl : lastByte host with
+      | error e => rfl
+      | ok lb =>
+        simp only [bind, Except.bind]
+        cases lb with
+        | none => rfl
+        | some label =>
+          simp only []
+          cases hnc : nodeContains S scheme port true with
+          | error e => rfl
+          | ok b =>
+            simp only []
+            cases b with
+            | true => rfl
+            | false =>
+              simp only [Bool.false_eq_true, if_false]
+              simp only [(hb label).1, (hb label).2]
+              cases hfound : (bsearch natLt label (K.map Prod.fst)).2 with
+              | false => rfl
+              | true =>
+                simp only [Bool.not_true, Bool.false_eq_true, if_false, cond_true]
+                have hlt : (bsearch natLt label (K.map Prod.fst)).1 < K.length := by
+                  unfold bsearch at hfound ⊢
+                  simp only [Bool.and_eq_true, decide_eq_true_eq, List.length_map] at hfound
+                  exact hfound.1
+                rw [idxG_ok _ _ (by simpa using hlt)]
+                simp only []
+                have hcinv : Inv ((K.map Prod.snd).getD (bsearch natLt label (K.map Prod.fst)).1 default) :=
+                  KidsInv_mem K _ hK (kid_mem K _ hlt)
+                cases splitAtCommonSuffix host ((K.map Prod.snd).getD (bsearch natLt label (K.map Prod.fst)).1 default).suf.reverse with
+                | error e => rfl
+                | ok t =>
+                  obtain ⟨a, b, c⟩ := t
+                  simp only []
+                  split
+                  · rfl
+                  · exact ih _ _ _ _ hcinv
+
+/-- `Tree.Contains` with the library's binary searches in it. -/
+def treeContainsBS (t : Node) (o : Origin) : Chk Bool :=
+  treeLoopBS (depth t + 1) t o.host.value o.scheme o.port
+
+/-- **Refinement.** On every tree that satisfies the invariant, `Tree.Contains` — index expressions checked, binary
+searches run as the library runs them — returns `.ok` of the list-level model's answer. -/
+theorem treeContainsBS_refines (t : Node) (h : Inv t) (o : Origin) : treeContainsBS t o = .ok (Tree.contains t o) := by
+  unfold treeContainsBS
+  rw [treeLoopBS_eq _ t _ _ _ h]
+  exact treeContains_refines t o
+
+end Ix
+end Cors
